@@ -224,7 +224,7 @@ class SyncRun:
                     dev.handed_over = True
                 return dev
             if ev == "connectFail":
-                raise fail_exc
+                raise next_failure(self, fail_exc)
             if ev == "connectTimeout" and timeout_exc is not None:
                 self.clock.ms += timeout_ms
                 raise timeout_exc
@@ -378,7 +378,7 @@ class SyncRun:
             return run.connect_call(FakeSerial, serial.SerialException("could not open port"), None, 0)
 
         def create_connection(_address, timeout=None):
-            return run.connect_call(FakeSocket, ConnectionRefusedError(111, "Connection refused"),
+            return run.connect_call(FakeSocket, tcp_dial_failures(),
                                     real_socket.timeout("timed out"), to_ms(timeout))
 
         def select(r, _w, _x, _timeout=None):
@@ -433,6 +433,23 @@ class SyncRun:
 # A'. asyncio flavours on a simulated-clock loop
 # =======================================================================================
 
+def tcp_dial_failures():
+    """What a failing TCP dial can raise: every one is an OSError, not every one a ConnectionError."""
+    import socket
+    return [ConnectionRefusedError(111, "Connection refused"), OSError(101, "Network is unreachable"),
+            socket.gaierror(-2, "Name or service not known"), OSError(113, "No route to host"),
+            ConnectionResetError(104, "Connection reset by peer"), ConnectionAbortedError(103, "aborted")]
+
+
+def next_failure(run, fail_exc):
+    """`fail_exc` is one exception or a list the successive failures of one run rotate through."""
+    if isinstance(fail_exc, list):
+        k = getattr(run, "_fail_no", 0)
+        run._fail_no = k + 1
+        return fail_exc[k % len(fail_exc)]
+    return fail_exc
+
+
 class SimLoop(asyncio.SelectorEventLoop):
     def __init__(self, clock, arun):
         super().__init__()
@@ -446,7 +463,7 @@ class SimLoop(asyncio.SelectorEventLoop):
         return self.call_at(self.time() + Fraction(to_ms(delay), 1000), callback, *args, context=context)
 
     async def create_connection(self, protocol_factory, host=None, port=None, **_kw):
-        return await self._arun.fake_connect(protocol_factory, OSError(111, "Connection refused"), True)
+        return await self._arun.fake_connect(protocol_factory, tcp_dial_failures(), True)
 
 
 class FakeATransport:
@@ -529,7 +546,7 @@ class AsyncRun:
             if self.pending is fut:
                 self.pending = None
         if res == "fail":
-            raise fail_exc
+            raise next_failure(self, fail_exc)
         protocol = protocol_factory()
         if tcp:
             tr = FakeATransport(self, self.loop, protocol)
